@@ -148,7 +148,9 @@ def tensors(draw):
     param = draw(st.booleans()) if floaty else False
     spec = {"t": "tensor", "dtype": dt, "shape": shape, "seed": draw(st.integers(0, 10**6)), "grad": grad, "param": param}
     if draw(st.integers(0, 2)) == 0:
-        spec["view"] = draw(st.sampled_from(["rows", "index", "transpose"]))  # a view into a larger storage
+        # a view into a larger storage; the *_live forms are still autograd views of their base (t._base is not None)
+        # when they are saved (seeded change C01-13: views pickled as detach().clone() lose requires_grad)
+        spec["view"] = draw(st.sampled_from(["rows", "index", "transpose", "rows_live", "index_live"]))
     return spec
 
 
@@ -364,7 +366,7 @@ def _make_tensor(spec):
         # same values, but living inside a larger storage (slice of a bigger tensor / transposed)
         if view == "transpose" and t.ndim >= 2:
             t = t.transpose(0, 1).contiguous().transpose(0, 1)
-        elif view == "index" or t.ndim == 0:
+        elif view.startswith("index") or t.ndim == 0:
             big = torch.zeros((3,) + tuple(t.shape), dtype=t.dtype)
             big[1] = t
             t = big[1]
@@ -372,7 +374,8 @@ def _make_tensor(spec):
             big = torch.zeros((t.shape[0] + 3,) + tuple(t.shape[1:]), dtype=t.dtype)
             big[2 : 2 + t.shape[0]] = t
             t = big[2 : 2 + t.shape[0]]
-        t = t.detach()
+        if not view.endswith("_live"):
+            t = t.detach()
     if spec.get("param"):
         t = torch.nn.Parameter(t, requires_grad=bool(spec.get("grad")))
     elif spec.get("grad"):
